@@ -102,6 +102,92 @@ def run_ref_tmp(run, P, only=None):
         run.stats['session_solver_steps'] += ctx.steps
 
 
+REL_OWED_EXCEPTIONS = {
+    'coap_session_release': "public API: the application gives back the reference it was handed",
+}
+
+
+def run_rel_owed(run, P, only=None):
+    """R-REF-TMP (release is owed): the mirror image of the temporary-hold rule.  A statement `coap_session_release_lkd(S)` on a
+    PARAMETER S of the function drops a reference somebody must own.  The function owns one when it took it itself earlier on the
+    path (`coap_session_reference_lkd(S);`), or when it is dismantling a holder object (a record type with a field assigned from
+    coap_session_reference_lkd(), computed) and frees that object raw in the same function - the holder's reference goes with it.
+    Otherwise the release takes a reference that belongs to someone else: the count reaches zero while an observation, a queued
+    message or the application still points at the session."""
+    run.rule('R-REF-TMP')
+    hrecs, _ = holders(P)
+    n = 0
+    for f in sorted(P.lib_funcs(), key=lambda f: f['name']):
+        if only and f['name'] not in only:
+            continue
+        name = f['name']
+        pvars = set('v%d' % p['id'] for p in f['params'])
+        rels = []
+        assigned = set()
+        frees_holder = False
+        for b, ev in P.events(f):
+            t = ev['e']
+            if t.get('k') == 'call' and t.get('fn') == REL and ev.get('top') and t.get('a'):
+                a = strip(t['a'][0])
+                if isinstance(a, dict) and a.get('k') == 'var' and ap(a) in pvars:
+                    rels.append(ev)
+            elif t.get('k') == 'asg' and ap(t['l']):
+                assigned.add(ap(t['l']))
+            elif t.get('k') == 'call' and t.get('fn') == FREE and len(t.get('a') or []) >= 2:
+                h = strip(t['a'][1])
+                if isinstance(h, dict) and h.get('prec') in hrecs:
+                    frees_holder = True
+        rels = [ev for ev in rels if ap(ev['e']['a'][0]) not in assigned]
+        if not rels:
+            continue
+        for ev in rels:
+            n += 1
+            run.instance('R-REF-TMP', '%s: %s; (parameter)' % (name, short(ev['e'])))
+        if name in REL_OWED_EXCEPTIONS:
+            run.notes.append('R-REF-TMP (release owed) exception %s: %s' % (name, REL_OWED_EXCEPTIONS[name]))
+            continue
+        if frees_holder:
+            for ev in rels:
+                run.oblige('R-REF-TMP', True, '%s:release-for-dismantled-holder' % name)
+            continue
+
+        def is_rule_event(ev):
+            t = ev['e']
+            return t.get('k') == 'call' and t.get('fn') in (REF, REL)
+        keys, R = relevance(f, is_rule_event)
+
+        def on_event(ev, env, ctx):
+            t = ev['e']
+            if _stmt_ref(ev):
+                a = key(t['a'][0])
+                e = env.copy()
+                e.ts['ref:' + a] = min(3, e.ts.get('ref:' + a, 0) + 1)
+                return [e]
+            if t.get('k') == 'call' and t.get('fn') == REL and t.get('a'):
+                a = key(t['a'][0])
+                if env.ts.get('ref:' + a, 0) > 0:
+                    e = env.copy()
+                    e.ts['ref:' + a] -= 1
+                    if e.ts['ref:' + a] == 0:
+                        del e.ts['ref:' + a]
+                    if any(ev is r for r in rels):
+                        run.oblige('R-REF-TMP', True, '%s:release-of-own-reference' % name)
+                    return [e]
+                if any(ev is r for r in rels):
+                    run.oblige('R-REF-TMP', False, '%s:release-of-own-reference' % name)
+                    run.violation('R-REF-TMP', name, ev['loc'], 'release-without-reference',
+                                  '%s releases a reference on its parameter that this function did not take on this path and that no holder object freed here '
+                                  'owns: the reference of another owner (an observation, a queued message, the application) is dropped and the session can be '
+                                  'freed while that owner still points at it' % short(t), ctx.path())
+            return None
+
+        def key_fn(e):
+            return tuple(sorted((k, v) for k, v in e.ts.items() if k.startswith('ref:')))
+        ctx = solve(f, Env(), on_event, None, keys, R, key_fn=key_fn)
+        run.stats['session_solver_steps'] += ctx.steps
+    run.require_count(n >= (5 if run.cfg == 'base' else 1) or run.fixture_mode, 'R-REF-TMP (release owed): fewer than 5 releases of a session parameter found')
+
+
 def run_ref_hold(run, P, only=None):
     run.rule('R-REF-HOLD')
     H, sites = holders(P)
